@@ -159,6 +159,11 @@ func canon(s []span) ([]span, error) {
 			if !equalPrerelease(this.min, this.max) || !equalPrerelease(this.min, next.min) || !equalPrerelease(this.min, next.max) {
 				continue
 			}
+			// A prerelease bound admits the other prereleases of its version,
+			// which a merged span would no longer do unless the bound survives.
+			if len(next.min.pre) > 0 && !next.min.equal(this.min) || len(this.max.pre) > 0 && !this.max.equal(next.max) {
+				continue
+			}
 			// We'll process the element now, so on the next outer loop, skip it.
 			merged[j] = true
 			if next.rank == empty {
